@@ -1,5 +1,6 @@
 import AFProofs.Lemmas.Grid
 import AFProofs.Lemmas.GridPhys
+import AFProofs.Lemmas.GridComp
 
 /-!
 # C16 — grid searches and sensitivity mapping: cells, tiling, result order, reported shape/limits
@@ -676,6 +677,105 @@ theorem reported_physical_refuted_in_doubles :
     raises (uniValue AF.Prior.floatSpecial (Float.ofBits 0xc080b7481a02faef)
       (Float.ofBits 0xc06d9ac95ebeb875) (Float.ofNat 1)) = true := by
   decide +kernel
+
+/-! ## the composition of a cell (`AFModel/GridComp.lean`): all other parameters keep their priors
+
+`cellComp t gridIds fresh` is `model.mapper_from_partial_prior_arguments` of one cell on the composition
+model of properties C01/C08 (`Node`, `walk`, `pathPriors`, `count`, `instW`): the driver runs it on the real
+model's tree and the harness compares places, ids in parameter order, count and instances of sampled cells. -/
+
+section CellComp
+open AF
+variable {W : Type}
+
+/-- the cell's model has exactly the places of the original model -/
+theorem cell_places (t : Node W) (gridIds fresh : List Nat) :
+    (walk (cellComp t gridIds fresh)).map (·.1) = (walk t).map (·.1) := by
+  rw [walk_cellComp, List.map_map]
+  rfl
+
+/-- **"all other parameters keep their priors"**: a place that holds a prior which is not a grid prior
+holds the same prior (same id) in every cell's model, also in the id-ordered `path_priors_tuples` -/
+theorem others_keep_priors_comp (t : Node W) (gridIds fresh : List Nat) (p : Path) (id : Nat)
+    (hm : (p, id) ∈ walk t) (hn : id ∉ gridIds) :
+    (p, id) ∈ walk (cellComp t gridIds fresh) ∧ (p, id) ∈ pathPriors (cellComp t gridIds fresh) := by
+  have h : (p, id) ∈ walk (cellComp t gridIds fresh) := by
+    rw [walk_cellComp]
+    exact List.mem_map.mpr ⟨(p, id), hm, by simp [cellSigma_not_mem gridIds fresh id hn]⟩
+  exact ⟨h, (mem_pathPriors _ _).mpr h⟩
+
+/-- every place of the `i`-th grid prior (tied places included) holds the cell's new prior of dimension `i` -/
+theorem grid_places_replaced_comp (t : Node W) (gridIds fresh : List Nat) (p : Path) (i id new : Nat)
+    (hnd : gridIds.Nodup) (hi : gridIds[i]? = some id) (hf : fresh[i]? = some new)
+    (hm : (p, id) ∈ walk t) :
+    (p, new) ∈ walk (cellComp t gridIds fresh) ∧ (p, new) ∈ pathPriors (cellComp t gridIds fresh) := by
+  have h : (p, new) ∈ walk (cellComp t gridIds fresh) := by
+    rw [walk_cellComp]
+    exact List.mem_map.mpr ⟨(p, id), hm, by simp [cellSigma_mem gridIds fresh i id new hnd hi hf]⟩
+  exact ⟨h, (mem_pathPriors _ _).mpr h⟩
+
+/-- nothing else changes: a place of the cell's model holds either the prior it held or a new prior -/
+theorem cell_places_only (t : Node W) (gridIds fresh : List Nat) (hl : fresh.length = gridIds.length)
+    (p : Path) (j : Nat) (hm : (p, j) ∈ walk (cellComp t gridIds fresh)) :
+    ((p, j) ∈ walk t ∧ j ∉ gridIds) ∨ (j ∈ fresh ∧ ∃ id ∈ gridIds, (p, id) ∈ walk t) := by
+  rw [walk_cellComp] at hm
+  obtain ⟨⟨q, id⟩, hq, he⟩ := List.mem_map.mp hm
+  simp only [Prod.mk.injEq] at he
+  obtain ⟨rfl, rfl⟩ := he
+  by_cases hg : id ∈ gridIds
+  · exact .inr ⟨cellSigma_mem_fresh gridIds fresh id hl hg, id, hg, hq⟩
+  · rw [cellSigma_not_mem gridIds fresh id hg]
+    exact .inl ⟨hq, hg⟩
+
+/-- the number of free parameters of a cell is that of the original model, when the new priors have ids of
+their own (pairwise distinct, none an id of the model - checked on the real ids on every run) -/
+theorem cell_count (t : Node W) (gridIds fresh : List Nat) (hl : fresh.length = gridIds.length)
+    (hf : fresh.Nodup) (hd : ∀ x ∈ fresh, x ∉ (walk t).map (·.2)) :
+    count (cellComp t gridIds fresh) = count t := by
+  have e : (walk (cellComp t gridIds fresh)).map (·.2)
+      = ((walk t).map (·.2)).map (cellSigma gridIds fresh) := by
+    rw [walk_cellComp, List.map_map, List.map_map]
+    rfl
+  simp only [count, uniqueIds, e]
+  exact length_sortDedup_map (cellSigma gridIds fresh) ((walk t).map (·.2))
+    (cellSigma_injOn gridIds fresh _ hl hf hd)
+
+/-- the instance a cell's model builds is the instance the original model builds when every grid parameter
+takes the value drawn for the cell's prior and every other parameter its own value -/
+theorem cell_instance [Inhabited W] (ops : Ops W) (ρ : Nat → Inst W) (t : Node W)
+    (gridIds fresh : List Nat) :
+    instW ops ρ (cellComp t gridIds fresh) = instW ops (fun id => ρ (cellSigma gridIds fresh id)) t :=
+  instW_rename ops ρ _ t
+
+/-- the ids `make_arguments` draws for the jobs of one search are pairwise distinct within a job and
+between jobs -/
+theorem fresh_ids_distinct (base d : Nat) (k k' i i' : Nat) (hi : i < d) (hi' : i' < d)
+    (h : (freshIds base d k)[i]? = (freshIds base d k')[i']?) : k = k' ∧ i = i' := by
+  simp only [freshIds, List.getElem?_map, List.getElem?_range hi, List.getElem?_range hi',
+    Option.map_some, Option.some.injEq] at h
+  have h1 : k * d + i = k' * d + i' := by omega
+  have hk : k = k' := by
+    have a := congrArg (· / d) h1
+    simp only [Nat.mul_comm _ d, Nat.mul_add_div (by omega : d > 0), Nat.div_eq_of_lt hi,
+      Nat.div_eq_of_lt hi'] at a
+    omega
+  subst hk
+  exact ⟨rfl, by omega⟩
+
+end CellComp
+
+example : walk (cellComp (V := Nat)
+      (.coll [("g", .model "P2" ["a", "b"] [("a", .prior 5), ("b", .prior 6)]),
+              ("h", .model "P3" ["a", "b", "c"] [("a", .prior 7), ("b", .prior 5), ("c", .const 1)])])
+      [7, 5] [8, 9])
+    = [(["g", "a"], 9), (["g", "b"], 6), (["h", "a"], 8), (["h", "b"], 9)] ∧
+    freshIds 8 2 3 = [14, 15] := by decide
+
+example : count (cellComp (V := Nat)
+      (.coll [("g", .model "P2" ["a", "b"] [("a", .prior 5), ("b", .prior 6)]),
+              ("h", .model "P3" ["a", "b", "c"] [("a", .prior 7), ("b", .prior 5), ("c", .const 1)])])
+      [7, 5] [8, 9]) = 3 :=
+  (cell_count _ [7, 5] [8, 9] rfl (by decide) (by decide)).trans (by decide)
 
 /-! tests (evaluated by the compiler at build time, not theorems): libm's `pow` does not reduce in
 the kernel, so the link between `sideF` and the bit pattern above is checked here -/
